@@ -773,12 +773,9 @@ func oracle(ops, outs []string) *corr.Violation {
 			if invalidWellFormed {
 				sig = "quorum-bypassed-by-wellformed-invalid-signature"
 			}
-			v := mk(sig, fmt.Sprintf("%d distinct registered authorizers signed this payload validly, threshold RoundToEven(%v*%d) = %d", len(signers), percent, prev.count, thr), i)
-			if sig != "quorum-bypassed-by-wellformed-invalid-signature" {
-				return v
-			}
-			// recorded finding: keep judging the rest of the run, so that it cannot hide another violation
-			recorded = append(recorded, v)
+			// (the bypass by a well-formed invalid signature was repaired in /repo by fix: 3c528ec; the signature is kept
+			// so that a regression is reported as exactly that)
+			return mk(sig, fmt.Sprintf("%d distinct registered authorizers signed this payload validly, threshold RoundToEven(%v*%d) = %d", len(signers), percent, prev.count, thr), i)
 		}
 		// (4) amounts: the client receives amount − fee share, the share (≤ max fee) is credited to one authorizer
 		if sender != 0 && sender != 1 {
